@@ -2,8 +2,8 @@
 (* Generator of expression trees for C18 (spec -> code direction) and the
    self-check of the rendering against the parser.  Every tree of the chosen
    family that stays inside the exact fragment is printed as JSON together
-   with its text in each style (a redundant style only where its text
-   differs from the minimal one).
+   with its text in each style (a style only where its text differs from
+   the texts of the styles before it).
      Family "prec"    all trees up to depth MaxDepth over ONE operator per precedence level
                       (plus both * and /) and three integer leaves: precedence and grouping
      Family "typing"  all trees up to depth MaxDepth over ALL operators and leaves of every
@@ -62,11 +62,10 @@ Keep(x) == Family # "prec" \/ (NOps(x) <= MaxOps /\ (Positional => LeafSeq(x) = 
 Printable(x) == LET v == Eval(x) IN v.k # "num" \/ (v.d <= 8 /\ Abs(v.n) < 8192)
 Styles == <<"min", "full", "left", "right">>
 Emit(x) ==
-    LET m == Render(x, "min")
+    LET txt == [s \in 1..4 |-> Render(x, Styles[s])]
     IN  \A s \in 1..4 :
-            LET txt == IF s = 1 THEN m ELSE Render(x, Styles[s])
-            IN  (s = 1 \/ txt # m) =>
-                    PrintT(<<"EXPR", ToJson([t |-> x, x |-> txt, style |-> Styles[s], pr |-> Printable(x)])>>)
+            (\A s0 \in 1..(s - 1) : txt[s0] # txt[s]) =>
+                PrintT(<<"EXPR", ToJson([t |-> x, x |-> txt[s], style |-> Styles[s], pr |-> Printable(x)])>>)
 InFragment(x) == Eval(x).k # "out"
 
 Init == /\ CASE Family = "prec"   -> t \in Trees(MaxDepth, IntLeaves, PrecBin) /\ i = 0
